@@ -249,6 +249,9 @@ pub fn dir_case(rng: &mut Rng, cfg: &str, o: &DirOpts, out: &mut Vec<String>) {
                     out.push(format!("lag.lookup {r} {hu}"));
                     out.push(format!("lag.history {r} {hu} complete"));
                     out.push(format!("lag.history {r} {hu} recent:1"));
+                    // a window larger than one: states ahead of the served epoch must not use up its slots
+                    out.push(format!("lag.history {r} {hu} recent:2"));
+                    out.push(format!("lag.history {r} {hu} recent:3"));
                 }
                 if epoch >= 1 {
                     out.push(format!("lag.audit {r} 0 {}", epoch));
@@ -432,7 +435,7 @@ pub fn generate(stream: &str, tier: &str, seed: u64) -> Vec<String> {
         }
         "l1.dir.c03" => {
             for i in 0..ncases {
-                let o = DirOpts { epochs: if i == 0 { epochs.max(18) } else { epochs }, users: users.min(5), lookups: false, histories: true, audits: false, dumps: false, tombstones: false, proofs: true, hot_user: i < 2, audit_adv: false, lookup_adv: false, history_adv: false, lag: false };
+                let o = DirOpts { epochs: if i == 0 { epochs.max(18) } else { epochs }, users: users.min(5), lookups: false, histories: true, audits: false, dumps: false, tombstones: false, proofs: true, hot_user: i < 2, audit_adv: false, lookup_adv: false, history_adv: false, lag: i % 4 == 1 };
                 dir_case(&mut rng, if i % 2 == 0 { "exp" } else { "wv1" }, &o, &mut out);
             }
         }
